@@ -651,8 +651,8 @@ def rule_value_display(fm, rep, rid='R5'):
                 variants[lab[1]] = s
     rep.floor(rid, 'MetricValue variants rendered', len(variants), 6)
     ev = OutEvents(body, T, lambda a: peel(a) == ('param', 2))
-    for v, start in sorted(variants.items()):
-        rep.sites()
+    def run_variant(v, start, mode, rep):
+        packed = mode in ('packed', 'single')
         R, seen = freach(T, [start])
         evs = {bb: a for bb, a in ev.events.items() if bb in seen}
         pay = field_of(('payload', ('deref', ('param', 1)), v), '0', 0)
@@ -667,11 +667,19 @@ def rule_value_display(fm, rep, rid='R5'):
             how = atom[2]
             if not how.startswith('display'):
                 return 'value written with %s' % how
-            if v.startswith('Packed'):
+            if packed:
                 for y in walk(x):
                     if y[0] == 'call' and isinstance(y[1], str) and y[1].endswith('Iterator>::next'):
                         src, enum = iter_source(y[2][0])
-                        if strip_mut(src) != pay and peel(src) != peel(pay):
+                        if mode == 'single':
+                            # a scalar rendered as the one-element slice `slice::from_ref(&payload)`: the packed grammar
+                            # value(:value)* over exactly one element is `value`
+                            s1 = strip_mut(src)
+                            while s1[0] in ('ref', 'deref', 'autoderef', 'unsize'):
+                                s1 = s1[1]
+                            if not (s1[0] == 'call' and s1[1] in ('core::slice::from_ref', 'core::slice::raw::from_ref') and strip_mut(norm(('deref', s1[2][0]))) == pay):
+                                return 'scalar arm iterates %s, not the one-element slice of its payload' % fmt(src)[:80]
+                        elif strip_mut(src) != pay and peel(src) != peel(pay):
                             return 'iterates %s instead of the packed values' % fmt(src)[:80]
                         nexts[y] = enum
                         path = proj_path(strip_mut(x), y)
@@ -688,7 +696,7 @@ def rule_value_display(fm, rep, rid='R5'):
 
         sub = _SubBody(body, start)
         strict_v = False
-        if v.startswith('Packed'):
+        if packed:
             from ..report import Report
             strict_v = run_grammar(sub, evs, classify, compile_re(VALUES_STRICT), Report('scratch'), rid, 'value/%s' % v, body.where(start), T=T)
             if strict_v:
@@ -699,7 +707,7 @@ def rule_value_display(fm, rep, rid='R5'):
                 okv = run_grammar(sub, evs, classify, compile_re(VALUES), rep, rid, 'value/%s' % v, body.where(start), T=T)
         else:
             okv = run_grammar(sub, evs, classify, compile_re(('val', 'item')), rep, rid, 'value/%s' % v, body.where(start), T=T)
-        if v.startswith('Packed') and okv and not strict_v:
+        if packed and okv and not strict_v:
             seps = [bb for bb, atoms in evs.items() if atoms == [('lit', ':')]]
             okg = bool(seps)
             for bb in seps:
@@ -720,6 +728,17 @@ def rule_value_display(fm, rep, rid='R5'):
                             g1 = True
                 okg = okg and g1
             rep.ob(rid, 'value/%s/separator-iff-not-first' % v, okg, body.where(start), '":" before every value but the first' if okg else 'the ":" separator is not guarded by (index > 0)')
+        return okv
+
+    from ..report import Report as _R
+    for v, start in sorted(variants.items()):
+        rep.sites()
+        if v.startswith('Packed'):
+            run_variant(v, start, 'packed', rep)
+        elif run_variant(v, start, 'scalar', _R('scratch')) or not run_variant(v, start, 'single', _R('scratch')):
+            run_variant(v, start, 'scalar', rep)
+        else:
+            run_variant(v, start, 'single', rep)
         # extra guards on the scalar arm (e.g. a "fast path") show up as additional Display sites -> grammar violation
 
 
